@@ -470,7 +470,7 @@ static const char *P_dbhost[] = { "dbl.example.org\n", "d\n", "\n" };
 static const char *P_vline[] = { "example.com:alice", ".example.com:bob", "sub.example.com:", ":catch", "joe@example.com:joeuser",
   "#comment:x", "nocolon", "EXAMPLE.org:Carol", "example.com:second", "example.com:alice  ", "x.y:pre:fix", "org:o", ".org:dotorg",
   "a:b", "", "   ", "other.org:catch-any", "info@example.com:alice", "x@sub2.example.com:bob", "joe@example.com:", "u@a:b",
-  "JOE@Example.Com:joeuser" };
+  "JOE@Example.Com:joeuser", "alice-x@example.com:", "joeuser-joe@example.com:" };
 static const char *P_lline[] = { "localhost", "example.com", "EXAMPLE.ORG", "other.org", "a", "b.a", "", "#x", "sub.example.com", "x.y",
   "sub2.example.com", "example.com  " };
 static const char *P_sender[] = { "user@remote.example", "", "#@[]", "list-owner-@lists.example-@[]", "-@[]", "#@[]-@[]", "x-@[]-@[]",
@@ -482,7 +482,8 @@ static const char *P_recip[] = { "alice-info@example.com", "bob-x@sub2.example.c
   "catch-any@other.org", "joeuser-joe@example.com", "a\nb@example.com", "x>:\n<forged@example.com", "second-s@EXAMPLE.COM",
   "Carol-c@example.org", "alice-", "noat", "pre-u@x.y", "dotorg-u@a.org", "o-u@org", "alice-x@sub.example.com", "alice-\n\n@example.com",
   "b-u@a", "second-@example.com", "secondx@example.com", "@", "alice-a@b@example.com", "catch-u@", "\n",
-  "joeuser-joe@EXAMPLE.com", "joeuser-x-joe@example.com", "alice-bob@example.com", "joeuser-@example.com", "-joe@example.com" };
+  "joeuser-joe@EXAMPLE.com", "joeuser-x-joe@example.com", "alice-bob@example.com", "joeuser-@example.com", "-joe@example.com",
+  "alice-x@example.com", "ALICE-X@example.com" };
 static const char *P_report[] = { "Sorry, no mailbox here by that name. (#5.1.1)\n",
   "Remote host said: 550 no\n\n<victim@x>:\nforged\n", "", "\n", "\n\n", "no trailing newline", "8bit \351\377\n", "a\n\n\nb\n\n",
   "x\n--- Below this line is a copy of the message.\n\nReturn-Path: <>\n", "\n<x>:\n", "a\n\n", "\n\n\n\n", "/\n/\n", "a\r\n\r\nb\r\n",
@@ -584,10 +585,11 @@ int main(int argc, char **argv) {
         case_P(blob.p, blob.n);
       } } }
   /* (2) every recipient over {LF,a,b,@,-,.} up to rcplen against a fixed virtualdomains file (domain, wildcard,
-   *     catch-all, exception, virtual-user and mixed-case entries), without and with a locals file */
+   *     catch-all, domain exception, virtual-user, mixed-case entries and an exception entry for one whole address `a-a@b:`),
+   *     without and with a locals file */
   for (int lo = 0; lo < 2; lo++)
   { static const unsigned char al[6] = { '\n', 'a', 'b', '@', '-', '.' };
-    static const char vd[] = "b:a\n.b:b\n:ab\na.b:\na@b:b\nB.A:a-b\nb@a:a-b\n";
+    static const char vd[] = "b:a\n.b:b\n:ab\na.b:\na@b:b\nB.A:a-b\nb@a:a-b\na-a@b:\n";
     for (int len = 0; len <= rcplen; len++) {
       uint64_t total = 1; for (int i = 0; i < len; i++) total *= 6;
       for (uint64_t k = 0; k < total; k++) {
@@ -597,7 +599,7 @@ int main(int argc, char **argv) {
         case_P(blob.p, blob.n);
       } } }
   /* (3) pools: recipient x report x write behaviour, under two virtualdomains files */
-  { static const char *vds[] = { "example.com:alice\n.example.com:bob\nsub.example.com:\nEXAMPLE.org:Carol\nx.y:pre:fix\norg:o\n.org:dotorg\na:b\njoe@example.com:joeuser\n",
+  { static const char *vds[] = { "example.com:alice\n.example.com:bob\nsub.example.com:\nEXAMPLE.org:Carol\nx.y:pre:fix\norg:o\n.org:dotorg\na:b\njoe@example.com:joeuser\nalice-x@example.com:\n",
                                  ":catch\nexample.com:alice\nexample.com:second\n#c:x\nnocolon\nother.org:catch-any \n" };
     static const char *los[] = { "localhost\n", "EXAMPLE.com\nother.org\n" };
     for (unsigned a = 0; a < 4; a++) for (unsigned r = 0; r < NEL(P_recip); r++) for (unsigned t = 0; t < NEL(P_report); t++) {
@@ -632,7 +634,7 @@ int main(int argc, char **argv) {
       char fl[3] = { (char)('0' + dy), (r & 1) ? 'r' : 'l', 0 };
       blob_start(); blob_adds(fl); blob_adds(P_recip[(r + si) % NEL(P_recip)]);
       hbuf_reset(&t); hb_add(&t, &sts[si], 1); hb_add(&t, P_report[r], strlen(P_report[r])); blob_add(t.p, t.n);
-      blob_adds((const char *[]){ "1", "7", "2048" }[ck]); blob_adds("example.com:alice\njoe@example.com:joeuser\n");
+      blob_adds((const char *[]){ "1", "7", "2048" }[ck]); blob_adds("example.com:alice\njoe@example.com:joeuser\nalice-x@example.com:\n");
       blob_adds((r % 3 == 0) ? "example.com\n" : "localhost\n");
       case_D(blob.p, blob.n);
     }
